@@ -19,13 +19,14 @@ ENTRIES_A = ["retry", "retry", "retry.ctx", "retrycfg"]
 OPTS_A = {"entries": ENTRIES_A, "p_budget": 0.3}
 OPTS_B = {"entries": ["policy", "policy", "policy.ctx"], "p_no_retry": 0.15}
 # RetryPolicy and the decorator are sugar over Policy without a breaker: same model, breaker = None
-OPTS_B2 = {"entries": ["retrypolicy", "retrypolicy", "retrypolicy.ctx", "decorator", "policy", "retrypolicycfg"], "p_no_retry": 0.0, "p_breaker": 0.0,
+OPTS_B2 = {"entries": ["retrypolicy", "retrypolicy", "retrypolicy.ctx", "decorator", "policy", "retrypolicycfg", "retrypolicyattr"], "p_no_retry": 0.0, "p_breaker": 0.0,
            "p_budget": 0.3, "max_attempts": [1, 2, 2, 3, 4, 5]}
 
 ALL_ENTRIES = [(e, m, a) for a in (False, True) for (e, m) in
          [("retry", "call"), ("retry", "execute"), ("policy", "call"), ("policy", "execute"), ("retrypolicy", "call"),
           ("retrypolicy", "execute"), ("retry.ctx", "call"), ("policy.ctx", "call"), ("retrypolicy.ctx", "call"),
-          ("decorator", "call"), ("retrycfg", "call"), ("retrycfg", "execute"), ("retrypolicycfg", "call"), ("retrypolicycfg", "execute")]]
+          ("decorator", "call"), ("retrycfg", "call"), ("retrycfg", "execute"), ("retrypolicycfg", "call"), ("retrypolicycfg", "execute"),
+          ("retrypolicyattr", "call"), ("retrypolicyattr", "execute")]]
 NE = len(ALL_ENTRIES)
 
 
@@ -87,8 +88,24 @@ def pairwise(chk, suspects):
         c["env"].update(ops=ops, strat=[0] * (k + 1), over=[0] * (k + 1), handler=[], abort=[], sleep_cancel=[], bs_cancel=[])
         c["cfg"].update(has_abort=False, handler_c=False)
         base.append(s)
+    # per-call callbacks next to per-policy ones (the call-level one must win at every entry point that takes them: all but the
+    # decorator): sleep handler, before_sleep, sleeper at both levels
+    for i in range(12 if chk.tier == "quick" else 150):
+        s = single_call_base(rc.gen_sequence(chk.rng, {"entries": ["retry"], "p_single": 1.0, "p_budget": 0.3, "mode": "call", "p_handler": 1.0,
+                                                       "p_bs": 0.7, "p_abort": 0.2, "handler_choices": ["S", "S", "D", "A"]}), 0)
+        p, c = s["policies"][0], s["calls"][0]
+        for d in (p, c["cfg"]):
+            d.update(handler_p=True, bs_p=chk.rng.random() < 0.7, sleeper_p=chk.rng.random() < 0.7)
+        c["cfg"].update(handler_c=True, bs_c=chk.rng.random() < 0.7, sleeper_c=chk.rng.random() < 0.7)
+        n_ops = len(c["env"]["ops"])
+        c["env"]["handler"] = [chk.rng.choice(["S", "S", "S", "D", "A"]) for _ in range(n_ops)]
+        s["_call_level"] = True
+        base.append(s)
+    groups = []
     for s in base:
-        for (e, m, a) in ALL_ENTRIES:
+        ents = [x for x in ALL_ENTRIES if x[0] != "decorator"] if s.pop("_call_level", False) else ALL_ENTRIES
+        groups.append((len(variants), ents))
+        for (e, m, a) in ents:
             t = copy.deepcopy(s)
             c = t["calls"][0]
             c.update(entry=e, mode=m)
@@ -100,7 +117,8 @@ def pairwise(chk, suspects):
     obs = rc.run_impl(variants, jobs=min(16, common.NPROC))
     diffs = 0
     for i, s in enumerate(base):
-        group = obs[i * NE:(i + 1) * NE]
+        g0, ents = groups[i]
+        group = obs[g0:g0 + len(ents)]
         ref = norm(group[0][0])
         for j, g in enumerate(group):
             if g[0]["delivery"][0] == "driver_error":
@@ -111,12 +129,13 @@ def pairwise(chk, suspects):
                     a, b = ref, norm(g[0])
                     k = next((k for k in range(min(len(a[0]), len(b[0]))) if a[0][k] != b[0][k]), min(len(a[0]), len(b[0])))
                     chk.violation({"kind": "oracle", "oracle": "C12-pairwise",
-                                   "what": f"entry points {ALL_ENTRIES[0]} and {ALL_ENTRIES[j]} behave differently on the same script: at trace "
+                                   "what": f"entry points {ents[0]} and {ents[j]} behave differently on the same script: at trace "
                                            f"position {k}: {a[0][k:k + 2]} vs {b[0][k:k + 2]}; delivery {a[1][:3]} vs {b[1][:3]}",
-                                   "script": variants[i * NE], "other_script": variants[i * NE + j],
+                                   "script": variants[g0], "other_script": variants[g0 + j],
                                    "observed": group[0], "observed_other": g, "driver": "runner_driver"})
                 break
-    chk.coverage["pairwise"] = {"base_scripts": len(base), "from_disagreeing_scripts": len(base) - n - (10 if chk.tier == "quick" else 60), "entry_points": NE,
+    chk.coverage["pairwise"] = {"base_scripts": len(base), "from_disagreeing_scripts": len(base) - n - (22 if chk.tier == "quick" else 210), "entry_points": NE,
+                                "with_call_level_callbacks": 12 if chk.tier == "quick" else 150,
                                 "runs": len(variants), "groups_with_a_difference": diffs}
     chk.coverage["evaluations"] = chk.coverage.get("evaluations", 0) + len(variants)
     return diffs
@@ -161,6 +180,10 @@ def run(chk):
                        "but is handled by execute() as an exception-caused attempt failure",
                        "replay": "harness/drivers/c12_findings_driver.py result_path_callback_error()"},
                       signature="C12-result-path-callback-error")
+    if ok:
+        import source_tie
+        source_tie.report(chk, source_tie.sugar_tie(chk), "sugar",
+                          "scripted calls through every entry point (pairwise and against the models): no difference found")
 
 
 def replay(path):
